@@ -432,6 +432,10 @@ def mkNodeActor (rest : List String) (t0 : Nat) : Option (Actor × Addr) :=
     let ip : UInt32 := match (kvOf rest "ip").bind String.toNat? with
       | some ip => UInt32.ofNat ip
       | none => pubIp.getD 167772161
+    -- tid0=<n>: the socket's transaction id counter starts at n
+    let cfg := match (kvOf rest "tid0").bind String.toNat? with
+      | some t => { cfg with firstTid := t }
+      | none => cfg
     some (Actor.create cfg (UInt64.ofNat (seed ||| 1)) t0, ⟨ip, 6881⟩)
   | none => none
 
